@@ -22,6 +22,11 @@ package sqlc_model
 //@ ghost var dbAddFailed bool
 //@ ghost var dbAddErrText string
 //@ ghost var dbDelN int
+// dbHandedOut: ids of the rows whose status is CLAIMED (handed out, not finished) - the part of
+// the persistent queue state property C04 is about. It survives the process: a function is
+// verified for every value it may have at entry (= every earlier stop or kill point).
+//@ ghost var dbHandedOut map[string]bool
+//@ pure handedOut(id string) bool = has(dbHandedOut, id)
 //@ ghost var dbDelID string
 //@ ghost var dbClaimN int
 //@ ghost var dbClaimID string
@@ -53,8 +58,16 @@ package sqlc_model
 
 //@ func (*Queries).ClaimThisURL
 //@   opaque
-//@   modifies dbClaimN, dbClaimID
+//@   modifies dbClaimN, dbClaimID, mapof(dbHandedOut)
 //@   ensures dbClaimN == old(dbClaimN) + 1 && dbClaimID == id
+//@   ensures result == nil ==> has(dbHandedOut, id)
+//@   ensures forall(k, string, k != id ==> has(dbHandedOut, k) == old(has(dbHandedOut, k)))
+
+//@ func (*Queries).ResetURL
+//@   opaque
+//@   modifies mapof(dbHandedOut)
+//@   ensures result == nil ==> !has(dbHandedOut, id)
+//@   ensures forall(k, string, k != id ==> has(dbHandedOut, k) == old(has(dbHandedOut, k)))
 
 //@ func (*Queries).GetFreshURLs
 //@   opaque
